@@ -543,9 +543,12 @@ func runPskConfigs(c *vh.Ctx, r *rand.Rand) {
 				return &utls.Config{InsecureSkipVerify: true, ServerName: "c34.test", ClientSessionCache: cache,
 					Certificates: []utls.Certificate{{Certificate: [][]byte{pki.LeafDER}, PrivateKey: pki.LeafKey}}}
 			}
+			var captured []byte
 			connect := func(id utls.ClientHelloID) (res *srvResult, hung bool, cliErr error) {
 				res, hung = withServer(cfg, func(conn net.Conn) {
-					u := utls.UClient(conn, clientCfg(), id)
+					cw := &captureConn{Conn: conn}
+					defer func() { captured = cw.first }()
+					u := utls.UClient(cw, clientCfg(), id)
 					pn, pv := vh.Recover(func() { cliErr = u.Handshake() })
 					if pn {
 						cliErr = fmt.Errorf("client panic: %v", pv)
@@ -572,6 +575,23 @@ func runPskConfigs(c *vh.Ctx, r *rand.Rand) {
 				c.Count("psk-resumption-handshake-ok/" + rp.name)
 			} else {
 				c.Count("psk-resumption-handshake-error/" + rp.name)
+			}
+			// the genuine resumption hello, with the structure of its pre_shared_key extension edited (all lengths fixed up)
+			if hello := firstHandshakeMessage(captured); hello != nil {
+				for _, m := range pskMutations(r, hello) {
+					script := record(22, 0x0303, m.hello)
+					res, hung := withServer(cfg, func(conn net.Conn) {
+						conn.Write(script)
+						if tc, ok := conn.(*net.TCPConn); ok {
+							tc.CloseWrite()
+						}
+					})
+					judge(c, fmt.Sprintf("psk/%s/resumed-%s/%s", cc.name, rp.name, m.name), script, res, hung,
+						fmt.Sprintf("server config %s; the ClientHello with which a %s client genuinely resumed (real ticket), pre_shared_key edited: %s", cc.name, rp.name, m.name))
+					c.Count("psk-mutated-resumption-run/" + cc.name)
+				}
+			} else {
+				c.Count("psk-no-captured-hello/" + rp.name)
 			}
 		}
 	}
@@ -1139,5 +1159,125 @@ func runStatefulExtsAfterHRR(c *vh.Ctx, r *rand.Rand) {
 				}
 			}
 		}
+	}
+}
+
+// captureConn remembers the first Write (the ClientHello record) of a client connection.
+type captureConn struct {
+	net.Conn
+	first []byte
+}
+
+func (c *captureConn) Write(b []byte) (int, error) {
+	if c.first == nil {
+		c.first = append([]byte{}, b...)
+	}
+	return c.Conn.Write(b)
+}
+
+// firstHandshakeMessage reassembles the first handshake message from the leading handshake records of a byte stream.
+func firstHandshakeMessage(stream []byte) []byte {
+	var hsBytes []byte
+	for len(stream) >= 5 && stream[0] == 22 {
+		l := int(stream[3])<<8 | int(stream[4])
+		if len(stream) < 5+l {
+			return nil
+		}
+		hsBytes = append(hsBytes, stream[5:5+l]...)
+		stream = stream[5+l:]
+		if len(hsBytes) >= 4 {
+			n := int(hsBytes[1])<<16 | int(hsBytes[2])<<8 | int(hsBytes[3])
+			if len(hsBytes) >= 4+n {
+				if hsBytes[0] != 1 {
+					return nil
+				}
+				return hsBytes[:4+n]
+			}
+		}
+	}
+	return nil
+}
+
+type pskIdent struct {
+	label []byte
+	age   []byte
+}
+type pskMutation struct {
+	name  string
+	hello []byte
+}
+
+// pskMutations rewrites the pre_shared_key extension (the last one) of a genuine resumption hello.
+func pskMutations(r *rand.Rand, hello []byte) []pskMutation {
+	w, ok := splitHello(hello)
+	if !ok || len(w.exts) == 0 || w.exts[len(w.exts)-1].id != 41 {
+		return nil
+	}
+	d := w.exts[len(w.exts)-1].data
+	var ids []pskIdent
+	var binders [][]byte
+	ok = func() (ok bool) {
+		defer func() {
+			if recover() != nil {
+				ok = false
+			}
+		}()
+		il := int(d[0])<<8 | int(d[1])
+		idb := d[2 : 2+il]
+		for len(idb) > 0 {
+			l := int(idb[0])<<8 | int(idb[1])
+			ids = append(ids, pskIdent{append([]byte{}, idb[2:2+l]...), append([]byte{}, idb[2+l:6+l]...)})
+			idb = idb[6+l:]
+		}
+		bb := d[2+il:]
+		bl := int(bb[0])<<8 | int(bb[1])
+		bb = bb[2 : 2+bl]
+		for len(bb) > 0 {
+			l := int(bb[0])
+			binders = append(binders, append([]byte{}, bb[1:1+l]...))
+			bb = bb[1+l:]
+		}
+		return len(ids) > 0 && len(binders) > 0
+	}()
+	if !ok {
+		return nil
+	}
+	R, B := ids[0], binders[0]
+	bogus := func(n int) pskIdent { return pskIdent{rbytes(r, n), rbytes(r, 4)} }
+	bogusB := func() []byte { return rbytes(r, len(B)) }
+	build := func(name string, is []pskIdent, bs [][]byte) pskMutation {
+		var ib, bbytes []byte
+		for _, i := range is {
+			ib = append(ib, u16lp(i.label)...)
+			ib = append(ib, i.age...)
+		}
+		for _, b := range bs {
+			bbytes = append(bbytes, byte(len(b)))
+			bbytes = append(bbytes, b...)
+		}
+		w2 := w
+		w2.exts = append(append([]wext{}, w.exts[:len(w.exts)-1]...), wext{41, append(u16lp(ib), u16lp(bbytes)...)})
+		return pskMutation{name, w2.bytes(0, 0)}
+	}
+	G1, G2 := bogus(len(R.label)), bogus(33)
+	return []pskMutation{
+		build("replayed-unmodified", ids, binders),
+		build("bogus-identity-before", []pskIdent{G1, R}, [][]byte{bogusB(), B}),
+		build("bogus-identity-before-one-binder", []pskIdent{G1, R}, [][]byte{B}),
+		build("bogus-identity-after", []pskIdent{R, G1}, [][]byte{B, bogusB()}),
+		build("bogus-identity-after-one-binder", []pskIdent{R, G1}, [][]byte{B}),
+		build("two-bogus-before-one-binder", []pskIdent{G1, G2, R}, [][]byte{B}),
+		build("two-bogus-before-two-binders", []pskIdent{G1, G2, R}, [][]byte{bogusB(), B}),
+		build("real-identity-twice", []pskIdent{R, R}, [][]byte{B, B}),
+		build("real-identity-twice-one-binder", []pskIdent{R, R}, [][]byte{B}),
+		build("real-identity-three-times-one-binder", []pskIdent{R, R, R}, [][]byte{bogusB()}),
+		build("more-binders-than-identities", []pskIdent{R}, [][]byte{B, bogusB(), bogusB()}),
+		build("binders-reordered", []pskIdent{G1, R}, [][]byte{B, bogusB()}),
+		build("real-binder-truncated", []pskIdent{R}, [][]byte{B[:len(B)/2]}),
+		build("real-binder-longer", []pskIdent{R}, [][]byte{append(append([]byte{}, B...), rbytes(r, 16)...)}),
+		build("real-binder-one-byte", []pskIdent{R}, [][]byte{B[:1]}),
+		build("zero-binders", []pskIdent{R}, nil),
+		build("ticket-age-changed", []pskIdent{{R.label, rbytes(r, 4)}}, [][]byte{B}),
+		build("ticket-last-byte-flipped", []pskIdent{{append(append([]byte{}, R.label[:len(R.label)-1]...), R.label[len(R.label)-1]^1), R.age}}, [][]byte{B}),
 	}
 }
